@@ -7,6 +7,8 @@
 
 #include <limits>
 #include <stdexcept>
+#include <atomic>
+#include <thread>
 #include <type_traits>
 
 #include "celma/format/grouped_int2string.hpp"
@@ -396,6 +398,72 @@ int main(int argc, char** argv)
          sweep<uint32_t>(blk << 16, 65536, f, 64);
          out.stat("cases");
          out.stat("distinct_exact", 2 * 65536);
+      }
+   }
+   else if (a.mode == "mt")
+   {
+      // the conversion functions have no state: T threads convert at the same time, every result is compared with the
+      // reference (judged inside the thread, reported after the join - vh::Out is not thread safe)
+      const unsigned T = (unsigned)a.getu("threads", 8), N = (unsigned)a.getu("values", 4000);
+      for (uint64_t idx = a.start; idx < a.start + a.count; ++idx)
+      {
+         out.curIdx = idx;
+         char d[96];
+         snprintf(d, sizeof d, "mt threads=%u values=%u", T, N);
+         prog.set(idx, d);
+         struct Res { uint64_t bad = 0, done = 0; std::string first; char pad[64]; };
+         std::vector<Res> res(T);
+         std::atomic<int> go{ 0 };
+         std::vector<std::thread> th;
+         for (unsigned t = 0; t < T; ++t)
+         {
+            th.emplace_back([&, t]() {
+               vh::Rng r(vh::mix(a.seed, vh::mix(vh::hash_str("mt"), idx * 64 + t)));
+               Ref ref;
+               char exp[48], buf[64];
+               while (!go.load(std::memory_order_acquire)) { }
+               for (unsigned i = 0; i < N; ++i)
+               {
+                  uint64_t x = r.next();
+                  const unsigned bits = 1 + (unsigned)r.below(64);
+                  if (bits < 64) x &= (uint64_t(1) << bits) - 1;
+                  const char g = GROUP_CHARS[r.below(sizeof GROUP_CHARS)];
+                  auto one = [&](auto v) {
+                     ref.set(v);
+                     int n = ref.plain(exp);
+                     std::string s = int2string(v);
+                     bool ok = s == exp;
+                     if (ok) { memset(buf, 0x5A, sizeof buf); ok = int2string(buf, v) == n && !strcmp(buf, exp); if (!ok) s = buf; }
+                     if (ok) { n = ref.grouped(exp, g); s = grouped_int2string(v, g); ok = s == exp; }
+                     if (ok) { memset(buf, 0x5A, sizeof buf); ok = grouped_int2string(buf, v, g) == n && !strcmp(buf, exp); if (!ok) s = buf; }
+                     ++res[t].done;
+                     if (!ok && res[t].bad++ == 0) res[t].first = std::string(tname<decltype(v)>()) + " " + vstr(v) + " -> '" + s + "', expected '" + exp + "'";
+                  };
+                  switch (r.below(8))
+                  {
+                  case 0: one(static_cast<int64_t>(x)); break;
+                  case 1: one(static_cast<int64_t>(uint64_t(0) - x)); break;
+                  case 2: one(static_cast<int64_t>(uint64_t(0) - (x | 1))); break;
+                  case 3: one(static_cast<uint64_t>(x)); break;
+                  case 4: one(static_cast<int32_t>(static_cast<uint32_t>(x))); break;
+                  case 5: one(static_cast<uint32_t>(x)); break;
+                  case 6: one(static_cast<int16_t>(static_cast<uint16_t>(x))); break;
+                  default: one(static_cast<int8_t>(static_cast<uint8_t>(x))); break;
+                  }
+               }
+            });
+         }
+         go.store(1, std::memory_order_release);
+         for (auto& t : th) t.join();
+         uint64_t bad = 0, done = 0;
+         std::string first;
+         for (auto& x : res) { bad += x.bad; done += x.done; if (first.empty()) first = x.first; }
+         out.stat("cases");
+         out.stat("values", done);
+         out.stat("mt.concurrent_conversions", done);
+         out.distinct(vh::mix(vh::hash_str("mt"), idx));
+         if (bad)
+            out.viol("mt|result differs from the reference while other threads convert", std::to_string(bad) + " of " + std::to_string(done) + " conversions in " + d + "; first: " + first);
       }
    }
    else
